@@ -49,6 +49,7 @@ def instantiate_all_generators(real_t=np.float64, num_threads=4):
     _, spne, _, _ = sopht_modules()
     out = {}
     opts = {
+        "width": [1, 2, 3, 4],
         "field_type": ["scalar", "vector"],
         "reset_ghost_zone": [True, False],
         "filter_type": ["multiplicative", "convolution"],
@@ -57,8 +58,6 @@ def instantiate_all_generators(real_t=np.float64, num_threads=4):
         gen = getattr(spne, name)
         sig = inspect.signature(gen)
         base = {"real_t": real_t, "num_threads": num_threads}
-        if "width" in sig.parameters:
-            base["width"] = 2
         if "dx" in sig.parameters:
             base["dx"] = 0.125
         for g in ("x_grid_field", "y_grid_field", "z_grid_field"):
